@@ -39,10 +39,14 @@ def run(ctx):
             "non-tty streams: OSError and nothing written. distinct = distinct (variant, history, version, border, payload)")
     versions = [1, 2, 3, 4, 7, 10, 21] if tier == "thorough" else [1, 2, 3, 6]
     reqs, exps, sreq, swant, metas = [], [], [], [], []
-    for v in versions:
-        for b in range(0, 7):
-            for variant in ("plain", "invert", "tty", "tty+invert", "print_tty"):
-                for hist in ("fresh", "made", "add-after-make"):
+    combos = [(v, b, variant, hist) for v in versions for b in range(0, 7) for variant in ("plain", "invert", "tty", "tty+invert", "print_tty")
+              for hist in ("fresh", "made", "add-after-make")]
+    # the largest symbols too (frame rows / line buffers sized for small versions would show here)
+    combos += [(v, b, variant, "fresh") for v in ((28, 40) if tier != "thorough" else (27, 28, 33, 40)) for b, variant in ((4, "print_tty"), (1, "plain"), (4, "tty"))]
+    for (v, b, variant, hist) in combos:
+        if True:
+            if True:
+                if True:
                     if variant == "print_tty" and b not in (0, 4):
                         continue
                     if tier != "thorough" and hist == "made" and (b + v) % 2:
